@@ -239,7 +239,11 @@ func newNode(offered []string, conf []string, holdKind string) *node {
 			if j < len(conf) {
 				kind = conf[j]
 			}
+			var calls int32
 			c.WithAbility(ab, cluster.FunctionalActorProvider(func() cluster.Actor {
+				if k := atomic.AddInt32(&calls, 1); (kind == "faulty1" && k == 1) || (kind == "faulty2" && k == 2) {
+					panic("c13: scripted failure of the ability provider")
+				}
 				inst := int(atomic.AddInt32(&n.provided, 1)) - 1
 				n.mu.Lock()
 				n.term[inst] = make(chan struct{})
@@ -1120,9 +1124,75 @@ func analyse(c *Case) (repeats int, errs int, stops int, dashed int) {
 	return
 }
 
+// faultyFamily: an ability whose PROVIDER panics on one of its invocations (user code of the ability, not of the manager).
+// The actor of that pair fails - that is its own business and its supervisor's - but the request must not make the cluster
+// manager fail: no accident of the manager, and the actor of an unrelated pair created before is still the one answered
+// afterwards (a restarted manager has stopped every cluster actor and forgotten its table). Monitors only: provider faults
+// are not part of MV.C13.DrillModel.
+type FaultyCase struct {
+	Faulty     bool   `json:"faulty_provider"`
+	PanicAt    int    `json:"panic_at"` // which invocation of the bad ability's provider panics (1 or 2)
+	Before     Res    `json:"before"`   // lookup of the unrelated pair before the faulty request
+	Bad        []Res  `json:"bad"`      // the lookups of pairs of the bad ability
+	After      Res    `json:"after"`    // the unrelated pair again
+	Accidents  int    `json:"manager_accidents"`
+	Reason     string `json:"reason,omitempty"`
+}
+
+func faultyFamily(out *vh.Out, rng *vh.RNG, thorough bool) {
+	rounds := 12
+	if thorough {
+		rounds = 200
+	}
+	for r := 0; r < rounds; r++ {
+		cr, _ := rng.Derive()
+		c, v := faultyRound(1+cr.Intn(2), 5+cr.Intn(30))
+		out.Count("faulty_provider_rounds", fmt.Sprint(c.PanicAt))
+		if len(v) > 0 {
+			out.Add(&c, "", false, v)
+		}
+	}
+}
+
+func faultyRound(panicAt, waitMs int) (FaultyCase, []vh.Violation) {
+	{
+		c := FaultyCase{Faulty: true, PanicAt: panicAt}
+		conf := []string{"", fmt.Sprintf("faulty%d", c.PanicAt)}
+		n := newNode([]string{"good", "bad"}, conf, "")
+		ask := askFn(n.sys.FutureAsk)
+		c.Before = n.lookup(ask, "u1", "good", nil)
+		for k := 0; k < c.PanicAt; k++ {
+			c.Bad = append(c.Bad, n.lookup(ask, fmt.Sprintf("b%d", k), "bad", nil))
+		}
+		time.Sleep(time.Duration(waitMs) * time.Millisecond) // the member is launched (and fails) on its own goroutine
+		c.After = n.lookup(ask, "u1", "good", nil)
+		c.Accidents, c.Reason = int(atomic.LoadInt32(&n.accident)), n.reason
+		n.shutdown()
+		var v []vh.Violation
+		sig := map[string]string{"fn": "onActorOf", "class": "faulty-ability-provider"}
+		if c.Accidents > 0 || c.After.K == "crash" {
+			v = append(v, vh.Violation{Kind: "drill:onActorOf:manager-failed-faulty-provider", Detail: fmt.Sprintf("the provider of ability 'bad' panicked on invocation %d and the cluster manager itself failed (%d accident(s): %s)", c.PanicAt, c.Accidents, c.Reason), Case: c, Sig: sig})
+		} else if c.Before.K == "ref" && (c.After.K != "ref" || c.After.Name != c.Before.Name || c.After.Inst != c.Before.Inst) {
+			v = append(v, vh.Violation{Kind: "drill:onActorOf:unrelated-pair-recreated-after-faulty-provider", Detail: fmt.Sprintf("pair (u1, good) was answered %+v before and %+v after a request whose ability provider panicked", c.Before, c.After), Case: c, Sig: sig})
+		}
+		return c, v
+	}
+}
+
 func main() {
 	f := vh.ParseFlags()
 	if f.Replay != "" {
+		var probe FaultyCase
+		vh.LoadReplayCase(f.Replay, &probe)
+		if probe.Faulty {
+			fc, v := faultyRound(probe.PanicAt, 20)
+			b, _ := json.Marshal(map[string]interface{}{"case": fc, "monitor": v})
+			fmt.Println(string(b))
+			if len(v) > 0 {
+				os.Exit(1)
+			}
+			return
+		}
 		var c Case
 		vh.LoadReplayCase(f.Replay, &c)
 		want := append([]Res(nil), c.Impl...)
@@ -1238,6 +1308,7 @@ func main() {
 		recordDone(out, &jobs[i].c, jobs[i].mal, viols[i])
 	}
 	wg.Wait()
+	faultyFamily(out, rng, f.Tier == "thorough")
 	out.Close()
 }
 
